@@ -325,8 +325,12 @@ def gen_ops(rng, kn, n, depth=0):
             op = ["op", kind, args, via]
         elif r < 0.76:
             op = ["select", ref(), operand(), operand()]
+        elif r < 0.795:
+            op = ["list", [ref() for _ in range(rng.randint(1, 3) if rng.random() < 0.7 else rng.randint(8, 13))]]
         elif r < 0.80:
-            op = ["list", [ref() for _ in range(rng.randint(1, 3))]]
+            # a wide list and a look-alike of it (same items, last two swapped), then the same parent over both
+            items = [ref() for _ in range(rng.randint(9, 12))]
+            op = ["list_pair", items, rng.choice(["len", "item", "list"])]
         elif r < 0.82:
             op = ["item", ref(), rng.choice([0, 1, ["v", ["np", "int64", (0).to_bytes(8, "little").hex()]]])]
         elif r < 0.83:
@@ -881,6 +885,24 @@ class Sim:
                     # be one object, so neither may the expressions built on them)
                     self.violation("duplicate", "again:" + prev.kind, first=repr(prev), second=repr(res))
                 return res
+            if t == "list_pair":
+                items = [["R", self.ref(x)] for x in op[1]]
+                if items[-1][1] is items[-2][1]:
+                    return None
+                swapped = items[:-2] + [items[-1], items[-2]]
+                l1 = self.step(["list", items])
+                l2 = self.step(["list", swapped])
+                if l1 is None or l2 is None:
+                    return None
+                self.bump(self.probes, "wide_list_and_its_permutation")
+                for lst in (l1, l2):
+                    if op[2] == "len":
+                        self.step(["len", ["R", lst]])
+                    elif op[2] == "item":
+                        self.step(["item", ["R", lst], 0])
+                    else:
+                        self.step(["list", [["R", lst], ["R", items[0][1]]]])
+                return None
             if t == "race":
                 return self.do_race(op)
             if t == "again_then_vary":
